@@ -4,6 +4,7 @@ import Vata.Proofs.SimModel
 import Vata.Proofs.IsectModel
 import Vata.Proofs.InclUpTotal
 import Vata.Proofs.PropAux
+import Vata.Proofs.Equivariance
 /-!
 # C19 – Results are invariant under renaming/reordering and obey the language laws
 
@@ -29,7 +30,12 @@ which is what makes the check applicable to the large corpus automata).
   `translateSymbols g` on the automaton, `Tree.mapSyms g` on trees.  Union: `unionDisjoint` (operands with disjoint
   states, which is what the check feeds) ; intersection: `isectFull` (same language as the model `isectTD` of
   `Intersection`, C02); reduction, trimming, re-indexing: the models of C05, C03, C14.
-  The lemmas (`Vata.incl_refl`, …) are in `Vata/Proofs/PropAux.lean`.
+  The lemmas (`Vata.incl_refl`, …) are in `Vata/Proofs/PropAux.lean`; the equivariance lemmas (`Vata.downSim_equivariant`,
+  `Vata.removeUseless_reindex_eq`, `Vata.simClasses_equivariant`, `Vata.incl_symbol_equivariant`, …) in
+  `Vata/Proofs/Equivariance.lean`.
+  The model of `Reduce` needs a choice of representatives; for the size statements it is the canonical one,
+  `reduceRef A = removeUnreachable (reindex (repOf A) A)` where `repOf A q` is the first state of `A.states` that is
+  downward-simulation equivalent to `q` (C05).
 -/
 namespace Vata.Props
 open Vata
@@ -64,8 +70,7 @@ example : let A : TA := RenameEx.exA; let A' : TA := ⟨A.rules.reverse ++ A.rul
   ⟨fun r => by simp, fun _ => Iff.rfl⟩
 
 /-- renumbering the symbols by an injective map: an inclusion that holds between the renumbered automata holds between
-the original ones.  Partial: the converse direction (which needs that the renumbered automaton accepts only relabelled
-trees) is not proved -/
+the original ones (one direction only; the full invariance is `C19_symbol_renumbering_invariance` below) -/
 theorem C19_symbol_renumbering_partial (g : Nat → Nat) (hg : ∀ a b, g a = g b → a = b) (A B : TA)
     (h : Incl (translateSymbols g A) (translateSymbols g B)) : Incl A B := by
   intro t ht
@@ -73,6 +78,83 @@ theorem C19_symbol_renumbering_partial (g : Nat → Nat) (hg : ∀ a b, g a = g 
   exact h _ (by rw [translateSymbols_lang g hg A t]; exact ht)
 
 example : ∀ a b : Nat, (· + 42) a = (· + 42) b → a = b := by intro a b h; simp only at h; omega
+
+/-- registering the symbols in a different order (renumbering them by an injective map `g`) changes neither the
+inclusion nor the emptiness nor an equivalence verdict.  The direction "verdict on the originals ⇒ verdict on the
+renumbered automata" rests on the fact that the renumbered automaton reaches no state on (hence rejects) every tree
+that is not a renumbered tree – in particular every tree containing a symbol outside the image of `g` – which is the
+last component -/
+theorem C19_symbol_renumbering_invariance (g : Nat → Nat) (hg : ∀ a b, g a = g b → a = b) (A B : TA) :
+    (Incl (translateSymbols g A) (translateSymbols g B) ↔ Incl A B) ∧
+    (LangEmpty (translateSymbols g A) ↔ LangEmpty A) ∧
+    (LangEq (translateSymbols g A) (translateSymbols g B) ↔ LangEq A B) ∧
+    (∀ t', (¬ ∃ t, Tree.mapSyms g t = t') → reach (translateSymbols g A) t' = []) :=
+  ⟨incl_symbol_equivariant g hg A B, empty_symbol_equivariant g hg A, langEq_symbol_equivariant g hg A B,
+   translateSymbols_reach_outside g A⟩
+
+example : ∀ a b : Nat, EqvEx.exG a = EqvEx.exG b → a = b := EqvEx.exG_inj
+-- both verdicts occur: `exC ⊆ exB`, `exB ⊄ exA`; a tree with the symbol `6` (not of the form `2 s + 5`) is rejected
+example : Incl (translateSymbols EqvEx.exG EqvEx.exC) (translateSymbols EqvEx.exG RenameEx.exB) ∧
+    ¬ Incl (translateSymbols EqvEx.exG RenameEx.exB) (translateSymbols EqvEx.exG RenameEx.exA) :=
+  ⟨(C19_symbol_renumbering_invariance _ EqvEx.exG_inj _ _).1.mpr (reindex_Incl (fun _ => 1) EqvEx.exC),
+   fun h => absurd ((C19_symbol_renumbering_invariance _ EqvEx.exG_inj _ _).1.mp h RenameEx.exT' (by decide)) (by decide)⟩
+example : reach (translateSymbols EqvEx.exG RenameEx.exB) (.node 9 [.node 6 []]) = [] ∧
+    reach (translateSymbols EqvEx.exG RenameEx.exB) (.node 9 [.node 5 []]) = [1] := by decide
+
+/-- renaming the states maps the computed simulation relations to their renamed images: the downward / upward
+simulation of the renamed automaton consists exactly of the pairs `(f q, f r)` with `(q, r)` in the simulation of `A` -/
+theorem C19_simulation_renaming (f : Nat → Nat) (A : TA) (hf : InjOnStates f A) :
+    (∀ x y, (x, y) ∈ downSimRef (reindex f A) ↔ ∃ q r, (q, r) ∈ downSimRef A ∧ x = f q ∧ y = f r) ∧
+    (∀ x y, (x, y) ∈ upSimRef (reindex f A) ↔ ∃ q r, (q, r) ∈ upSimRef A ∧ x = f q ∧ y = f r) :=
+  ⟨downSimRef_reindex_image f A hf, upSimRef_reindex_image f A hf⟩
+
+example : InjOnStates EqvEx.exF SimModel.exA := EqvEx.exF_inj_simA
+example : (reindex EqvEx.exF SimModel.exA).states = [40, 33, 26, 19, 12] ∧
+    (26, 19) ∈ downSimRef (reindex EqvEx.exF SimModel.exA) ∧ (2, 3) ∈ downSimRef SimModel.exA ∧
+    (12, 26) ∉ downSimRef (reindex EqvEx.exF SimModel.exA) ∧ (4, 2) ∉ downSimRef SimModel.exA := by decide
+
+/-- renaming the states leaves the result of trimming unchanged up to the renaming – trimming commutes with the
+renaming, as an equality of automata – hence the numbers of states and of rules produced by trimming are unchanged -/
+theorem C19_trimming_renaming (f : Nat → Nat) (A : TA) (hf : InjOnStates f A) :
+    removeUseless (reindex f A) = reindex f (removeUseless A) ∧
+    removeUnreachable (reindex f A) = reindex f (removeUnreachable A) ∧
+    (removeUseless (reindex f A)).states.length = (removeUseless A).states.length ∧
+    (removeUseless (reindex f A)).rules.length = (removeUseless A).rules.length ∧
+    (removeUnreachable (reindex f A)).states.length = (removeUnreachable A).states.length :=
+  ⟨removeUseless_reindex_eq f A hf, removeUnreachable_reindex_eq f A hf, trim_states_length_equivariant f A hf,
+   trim_rules_length_equivariant f A hf, unreach_states_length_equivariant f A hf⟩
+
+example : InjOnStates EqvEx.exF TrimEx.exA := EqvEx.exF_inj_trimA
+example : (removeUseless (reindex EqvEx.exF TrimEx.exA)).states.length = 2 ∧ TrimEx.exA.states.length = 6 := by decide
+-- injectivity is needed: merging the unproductive state `2` with the productive state `0` changes the count
+example : let c : Nat → Nat := fun q => if q = 2 then 0 else q
+    (removeUseless (reindex c TrimEx.exA)).states.length = 3 ∧ (removeUseless TrimEx.exA).states.length = 2 := by decide
+
+/-- renaming the states leaves the result of reduction (canonical representatives) unchanged up to the renaming, hence
+the numbers of states and rules it produces, and the number of simulation-equivalence classes, are unchanged -/
+theorem C19_reduction_renaming (f : Nat → Nat) (A : TA) (hf : InjOnStates f A) :
+    reduceRef (reindex f A) = reindex f (reduceRef A) ∧
+    (reduceRef (reindex f A)).states.length = (reduceRef A).states.length ∧
+    (reduceRef (reindex f A)).rules.length = (reduceRef A).rules.length ∧
+    simClasses (reindex f A) = simClasses A :=
+  ⟨reduceRef_reindex_eq f A hf, reduceRef_states_length_equivariant f A hf,
+   reduceRef_rules_length_equivariant f A hf, simClasses_equivariant f A hf⟩
+
+example : (reduceRef SimModel.exA).states = [0, 2] ∧ (reduceRef (reindex EqvEx.exF SimModel.exA)).states = [40, 26] ∧
+    simClasses SimModel.exA = 3 := by decide
+
+/-- the same for *every* choice of representatives: whatever quotient projections `h` (for `A`) and `h'` (for the
+renamed automaton) are used – `IsQuotProj`: every state is sent to a simulation-equivalent state, equivalent states to
+the same state – the model of `Reduce` produces the same numbers of states and rules on both sides -/
+theorem C19_reduction_renaming_any_choice (f : Nat → Nat) (A : TA) (hf : InjOnStates f A) (h h' : Nat → Nat)
+    (hh : IsQuotProj A h) (hh' : IsQuotProj (reindex f A) h') :
+    (removeUnreachable (reindex h' (reindex f A))).states.length = (removeUnreachable (reindex h A)).states.length ∧
+    (removeUnreachable (reindex h' (reindex f A))).rules.length = (removeUnreachable (reindex h A)).rules.length :=
+  reduce_size_equivariant f A hf h h' hh hh'
+
+example : IsQuotProj SimModel.exA (repOf SimModel.exA) ∧
+    IsQuotProj (reindex EqvEx.exF SimModel.exA) (repOf (reindex EqvEx.exF SimModel.exA)) :=
+  ⟨repOf_isQuotProj _, repOf_isQuotProj _⟩
 
 /-! ### the laws of language inclusion -/
 
@@ -134,14 +216,10 @@ example : (reindex (· + 10) RenameEx.exA).states = [11, 12] ∧ RenameEx.exA.st
 /-!
 ## not yet proved
 
-* **Simulation relations are mapped to their renamed image** (`downSimRef (reindex f A)` is the `f`-image of
-  `downSimRef A`, same for the upward simulation): not proved (see C04).
-* **The number of states produced by reduction and trimming is unchanged under renaming**
-  (`(removeUseless (reindex f A)).states.length = (removeUseless A).states.length`, same for the model of `Reduce`):
-  needs that `prodStates`/`tdReach`/`downSimRef` commute with an injective `reindex`; not proved.  Only
-  `C19_renaming_keeps_sizes` (re-indexing itself keeps the sizes) is.
-* **Symbol renumbering**: only one direction of the invariance of inclusion (`C19_symbol_renumbering_partial`); the
-  emptiness verdict under symbol renumbering is not stated.
+* **Reduction under renaming** is proved for the model `removeUnreachable (reindex h A)` with any quotient projection
+  `h` (`IsQuotProj`, `C19_reduction_renaming_any_choice`; with the canonical one as an equality of automata,
+  `C19_reduction_renaming`).  That the map the C++ derives (`GetQuotientProjection`) is a quotient projection is the
+  hypothesis, see C05.
 * **Dumped-and-reloaded form**: the round trip is proved on the level of descriptions (C13), not as a `LangEq` between
   tree automata.
 * **"Every inclusion algorithm returns the same verdict"**: see C01 – proved for the model of the upward selection
